@@ -67,6 +67,26 @@ def degenerate_on_grid(s, U, k, box):
     return False
 
 
+def subpixel_stage(ctx, rnd, quick):
+    """'Subpixel masks of every maskable shape converge to the true overlap fraction': the sub-pixel mask of every
+    maskable simple shape is the exact count of member sub-sample centres (Geometry!MaskRef, n = 1..5), for fresh
+    regions and for regions that were used with other parameters before (same replay as C02, every 3rd state)."""
+    from . import c02
+    res = tlc.run('MC_Geometry', cfg_text=c02.cfg('FamMaskSimple', 'OpsMask', -12, 12, ['InvMaskRange'], subn='NQuick' if quick else 'NAll'), dump=True, tag='c03sub')
+    ctx.tlc(res, 'MC_Geometry sub-pixel masks of the maskable simple shapes (exact sample counts)')
+    if res.violated:
+        ctx.violation(f'C03|model|{res.violated}', f'Geometry.tla: {res.violated} fails in the model', {'trace': res.trace[-1:]})
+    else:
+        k = 0
+        for st in parse_dump(res.dump_path, only='pc = "ret"'):
+            k += 1
+            if k % 3 == 1:
+                c02.replay_mask_state(ctx, 'C03', st, k, rnd)
+        ctx.traces += (k + 2) // 3
+        ctx.note('subpixel_states_replayed', (k + 2) // 3)
+    tlc.cleanup(res.workdir)
+
+
 def run(ctx):
     quick = ctx.tier == 'quick'
     m = 4
@@ -77,17 +97,18 @@ def run(ctx):
         ctx.violation(f'C03|model|{res.violated}', f'Overlap.tla: {res.violated} fails in the model', {'trace': res.trace[-1:]})
     tlc.cleanup(res.workdir)
     rnd = random.Random(ctx.seed * 97 + 3)
+    subpixel_stage(ctx, rnd, quick)
     from regions._geometry import circular_overlap_grid, elliptical_overlap_grid
     U = 4 * m
     events, meta = [], []
     nshapes = 260 if quick else 2500
     for t in range(nshapes):
         if rnd.random() < 0.4:
-            s = {'k': 'circle', 'cx': rnd.choice([0, 1, 2, 3, 5, 8, U // 2]), 'cy': rnd.choice([0, 1, 3, U // 2, 7]), 'r': rnd.choice([4, 6, 8, 12, 16, 24, 40, 64, 96]), 'inc': 'absent'}
+            s = {'k': 'circle', 'cx': rnd.choice([0, 1, 2, 3, 5, 8, U // 2, -3, -21, -U - 5]), 'cy': rnd.choice([0, 1, 3, U // 2, 7, -6, -U // 2 - 1, -2 * U - 3]), 'r': rnd.choice([4, 6, 8, 12, 16, 24, 40, 64, 96]), 'inc': 'absent'}
         else:
             w, h = rnd.choice([(16, 8), (8, 16), (24, 8), (48, 8), (32, 24), (12, 20), (40, 16), (96, 16),
                                (2, 12), (12, 2), (4, 14), (3, 10), (6, 6), (2, 26), (5, 9), (10, 3)])       # incl. ellipses smaller than a pixel
-            s = {'k': 'ellipse', 'cx': rnd.choice([0, 1, 2, 3, 5, 7, U // 2]), 'cy': rnd.choice([0, 1, 3, 6, 5, U // 2]), 'w': w, 'h': h, 'd': list(rnd.choice(DIRS5)), 'inc': 'absent'}
+            s = {'k': 'ellipse', 'cx': rnd.choice([0, 1, 2, 3, 5, 7, U // 2, -3, -21, -U - 5]), 'cy': rnd.choice([0, 1, 3, 6, 5, U // 2, -6, -U // 2 - 1, -2 * U - 3]), 'w': w, 'h': h, 'd': list(rnd.choice(DIRS5)), 'inc': 'absent'}
         fr = geom.Frame(U, 1.0, 0.0, 0.0, rnd.randint(0, 2))
         reg = geom.build(s, fr)
         try:
